@@ -116,6 +116,12 @@ def cases(max_len, seed, extra_random):
         ln = rx.randint(6, 24)
         scores = tuple(rx.choice((-250.0, -250.0, -199.5, -0.75, 100.25, 400.5, 998.5, 1000.0, 1000.0)) for _ in range(ln))
         yield (scores, rx.getrandbits(ln) | 1 | (1 << (ln - 1)), rx.choice((500, 1000, 1000.5)), rx.choice((100.25, 600, 1200, 1200.5)))
+    # runs that miss minScore by a hair (a relative 1e-6 .. 1e-5, exactly representable): "at least minScore" is an exact comparison
+    for ms, d in ((1000, 2.0 ** -8), (1000, 2.0 ** -7), (200000, 1.0), (200000, 0.5), (1024, 2.0 ** -10), (0.5, 2.0 ** -19)):
+        for bst in (ms * 1.25, ms / 4):
+            for shape in ((ms - d,), (ms / 2, ms / 2 - d), (ms - d, -ms / 8, ms / 8), (ms / 4, ms / 4, ms / 4, ms / 4 - d), (ms,), (ms / 2, ms / 2),
+                          (ms - d, -ms * 2, ms), (ms, -ms * 2, ms - d)):
+                yield (tuple(float(x) for x in shape), (1 << len(shape)) - 1, ms, bst)
     rnd = random.Random(seed)
     for _ in range(extra_random):
         ln = rnd.randint(8, 30)
@@ -141,7 +147,7 @@ def bounded(repo, tier, seed):
     for v in viol:
         uniq.setdefault(v['key'], v)
     viol = list(uniq.values())
-    return result(ev, nt, f"all score sequences of length 0..{max_len} over {ALPHABET} x {len(THRESHOLDS)} (minScore, breakSegmentThreshold) pairs, all of length 1..{min(max_len, 5)} over the fractions {FRACTIONS} x {len(FRACTION_THRESHOLDS)} fractional pairs, random longer fractional ones "
+    return result(ev, nt, f"all score sequences of length 0..{max_len} over {ALPHABET} x {len(THRESHOLDS)} (minScore, breakSegmentThreshold) pairs, all of length 1..{min(max_len, 5)} over the fractions {FRACTIONS} x {len(FRACTION_THRESHOLDS)} fractional pairs, random longer fractional ones, runs that miss minScore by a relative 1e-6 .. 1e-5 "
                           f"hitting the threshold equalities, plus random longer sequences; non-trivial = at least one non-empty segment returned",
                   [dict(scores=list(c[0]), minScore=c[2], breakSegmentThreshold=c[3]) for c in allc[5000:5003]],
                   viol[:5], exhaustive=True, bounds=f"length <= {max_len}, alphabet {ALPHABET}")
